@@ -15,4 +15,23 @@ the tolerance -/
 def nonInteger {α : Type} [RNum α] (charge tol : α) : Bool :=
   RNum.lt (RNum.abs tol) (RNum.abs (charge - RNum.round charge))
 
+/-! ### the repair gate (main.py `is_repairable`) -/
+
+/-- what `is_repairable(biomolecule, has_ligand)` does with the two counts it reads -/
+inductive Gate where
+  | noHeavyError      -- no heavy atom, no ligand: raises ValueError
+  | noHeavyLigand     -- no heavy atom but a ligand: warns, returns False
+  | clean             -- nothing missing: returns False (no repair needed)
+  | tooMany           -- more than the repair limit (0.1) missing: logs an error, returns False
+  | repair            -- returns True
+deriving Repr, DecidableEq, Inhabited
+
+/-- `float(num_missing) / float(num_heavy) > 0.1` for counts far below 2^50 is `10 * missing > heavy`
+(the harness compares the two on a grid around the limit and on every run) -/
+def repairGate (heavy missing : Nat) (hasLigand : Bool) : Gate :=
+  if heavy = 0 then (if hasLigand then .noHeavyLigand else .noHeavyError)
+  else if missing = 0 then .clean
+  else if 10 * missing > heavy then .tooMany
+  else .repair
+
 end P2P.ChargeGuard
